@@ -296,9 +296,11 @@ child embeds into its parent while everything else is inert (`step_embed`, `runU
 theorem for serial composites over a per-kind specification (`gen`, `KSpec`) with the kinds Wrapper,
 Composite, IfElse, IfThen, Switch, Sequence instantiated; (d) structural induction over the tree (`good_all`). -/
 
-/-- **`C17_result_matches_doc`, closed milestones M1 (synchronous leaves) and M2 (delayed leaves) for the
-serial composites Sequence (all modes, any number of children), IfElse, IfThen (any number of pairs),
-Switch, Wrapper (all modes) and Composite, nested arbitrarily, over FunctionAction and SleepAction leaves, no timeouts**: start the freshly
+/-- **`C17_result_matches_doc`, closed milestones M1 (synchronous leaves), M2 (delayed leaves) and M4
+(composites that reset and re-run children) for the serial composites Sequence (all modes, any number of
+children), IfElse, IfThen (any number of pairs), Switch, Wrapper (all modes), Composite, Loop (all modes),
+LoopIf and Repeat (times ≥ 1, all modes), nested arbitrarily, over FunctionAction and SleepAction leaves,
+no timeouts**: start the freshly
 built tree, then ANY sequence of loop passes and clock steps.  If the evaluator assigns the result `r`,
 the observable trace — calls of the leaf functions (`inl id`) and finish notifications of the root
 (`inr (is_succ, reason)`) — is either a prefix of the evaluator's visit order (still under way), or the
@@ -311,22 +313,36 @@ theorem C17_result_matches_doc_serial (t : T) (hs : SerOk t = true) (hc : Clean 
   result_matches_doc_run t hs hc ops hcf r hr
 
 /-- **liveness (L) for the same class — "finishes exactly once with the documented result"**: `cost t`
-(one per SleepAction leaf + one per child of every composite) is a progress measure.  Start the freshly
-built tree, then ANY sequence of loop passes and clock steps that contains at least `cost t + 1` BIG ones —
-a clock step of at least `M` ms, where `M` bounds every SleepAction delay of the tree (`maxDelay t ≤ M`);
-for a tree without delays `M = 0`, and then every loop pass and every clock step is big.  Small passes
-and clock steps may be interleaved in any number and position (a fair schedule), and the schedule may go
-on for as long as it likes afterwards.  Then the evaluator assigns a result `r` and the observable trace
-IS the complete visit order followed by exactly ONE finish notification carrying `r`. -/
+(one per SleepAction leaf + one per child of every composite, times `n` below a RepeatAction(n)) is a
+progress measure.  Start the freshly built tree, then ANY sequence of loop passes and clock steps that
+contains at least `cost t + 1` BIG ones — a clock step of at least `M` ms, where `M` bounds every
+SleepAction delay of the tree (`maxDelay t ≤ M`); for a tree without delays `M = 0`, and then every loop
+pass and every clock step is big.  Small passes and clock steps may be interleaved in any number and
+position (a fair schedule), and the schedule may go on for as long as it likes afterwards.  If the
+evaluator assigns a result `r` (no loop of the tree runs for ever), the observable trace IS the complete
+visit order followed by exactly ONE finish notification carrying `r`. -/
 theorem C17_finishes_exactly_once (t : T) (hs : SerOk t = true) (hc : Clean t = true) (ops : List Op)
-    (hcf : ops.all cfOp = true) (M : Nat) (hM : maxDelay t ≤ M) (hbig : cost t + 1 ≤ bigCount M ops) :
-    ∃ r, eval t = some r ∧ trOf (run t {} (.calls [.start] :: ops)).2.log = (visit t).map Sum.inl ++ [Sum.inr r] :=
-  finishes_once_run t hs hc ops hcf M hM hbig
+    (hcf : ops.all cfOp = true) (M : Nat) (hM : maxDelay t ≤ M) (hbig : cost t + 1 ≤ bigCount M ops)
+    (r : Bool × Nat) (hr : eval t = some r) :
+    trOf (run t {} (.calls [.start] :: ops)).2.log = (visit t).map Sum.inl ++ [Sum.inr r] :=
+  finishes_once_run t hs hc ops hcf M hM hbig r hr
 
-/-- by-product: the evaluator is total on the covered class (it has a fuel-free definition by structural
-recursion, but its value could be `none` = "does not finish"; it never is for these trees) -/
-theorem C17_eval_total_serial (t : T) (hs : SerOk t = true) (hc : Clean t = true) : ∃ r, eval t = some r :=
-  eval_total t hs hc
+/-- **M4, the non-terminating case** (LoopAction kForever, an until-loop whose body never gives the awaited
+result, a LoopIfAction whose condition holds — leaves are deterministic, so such a loop never ends):
+when the evaluator says "runs for ever", then after ANY sequence of loop passes and clock steps the
+owner has observed calls of leaf functions only, never a finish notification. -/
+theorem C17_loop_never_finishes (t : T) (hs : SerOk t = true) (hc : Clean t = true) (ops : List Op)
+    (hcf : ops.all cfOp = true) (hn : eval t = none) :
+    ∃ tr : List Nat, trOf (run t {} (.calls [.start] :: ops)).2.log = tr.map Sum.inl :=
+  never_finishes_run t hs hc ops hcf hn
+
+/-- **skeleton preservation** (used by M4: a child that is reset and run again is a clean tree with the
+skeleton of the freshly built one, and the documented meaning reads the skeleton only): the static
+structure of the tree — which actions, of which kind, with which timeout, in which arrangement — is the
+same after EVERY sequence of ops (control calls of any kind, emits, deferred calls, clock steps). -/
+theorem C17_skeleton_preserved (t : T) (g : G) (ops : List Op) :
+    sk (run t g ops).1 = sk t ∧ eval (run t g ops).1 = eval t ∧ visit (run t g ops).1 = visit t :=
+  ⟨run_sk ops t g, (eval_of_sk t _ (run_sk ops t g)).1, (eval_of_sk t _ (run_sk ops t g)).2⟩
 
 /-- a covered tree: Sequence[ F1(succ), IfElse(F3 fail ? F4 : Sleep5), Wrapper-invert(F7 fail) ] -/
 def docTree : T :=
@@ -342,6 +358,17 @@ example : trOf (run docTree {} [.calls [.start], .pass, .adv 200, .pass, .pass, 
   decide +kernel
 example : trOf (run docTree {} [.calls [.start], .pass, .pass, .adv 200, .pass, .pass, .pass, .pass, .pass]).2.log =
     [Sum.inl 1, Sum.inl 3, Sum.inl 7, Sum.inr (true, 2)] := by decide +kernel
+
+/-- a covered tree with loops: Repeat(3, no break)[ Sequence[ F1(succ), Sleep2, Loop(until fail)[ F4(fail) ] ] ] -/
+def loopTree : T :=
+  comp 0 (.repeat_ 3 .noBreak) [comp 5 (.seq .all) [leaf 1 (.func true none), leaf 2 (.sleep 101),
+    comp 3 (.loop .untilFail) [leaf 4 (.func false none)]]]
+
+example : SerOk loopTree = true ∧ Clean loopTree = true ∧ eval loopTree = some (true, 7) ∧
+    visit loopTree = [1, 4, 1, 4, 1, 4] ∧ cost loopTree = 18 ∧ maxDelay loopTree = 101 := by decide +kernel
+/-- … and a tree that runs for ever: Loop(until succ)[ F1(fail) ] -/
+example : SerOk (comp 0 (.loop .untilSucc) [leaf 1 (.func false none)]) = true ∧
+    eval (comp 0 (.loop .untilSucc) [leaf 1 (.func false none)]) = none := by decide +kernel
 
 /-! ## ActionExecutor (action_executor.cpp; model Exec.lean, repaired code of patches/C17-06)
 
@@ -364,29 +391,38 @@ theorem C17_exec_heads_only (ops : List Exec.XOp) (hok : ops.all Exec.opOk = tru
   have h := Exec.xrun_inv ops {} hok Exec.init_inv1
   have := h.1 i; rw [e] at this; exact this
 
+/-- **highest priority first**: after any sequence of executor operations, a Running action is the head
+of the highest-priority non-empty deque — every deque of higher priority (smaller index) is empty.
+(`schedule()` pre-empts: it pauses the running head as soon as a higher-priority deque is non-empty, and
+the fuel of the modelled loop always suffices for that first iteration.) -/
+theorem C17_exec_highest_priority_first (ops : List Exec.XOp) (hok : ops.all Exec.opOk = true) :
+    ∀ i a rest, (Exec.xrun {} ops).q i = a :: rest → a.st = .running → ∀ j, j < Exec.nrm i → (Exec.xrun {} ops).q j = [] :=
+  Exec.exec_highest_first ops hok
+
 example : (Exec.xrun {} [.append .dummy 2, .append .dummy 2, .append .dummy 0, .emit 3 true, .pass]).curr = some 2 := by decide +kernel
 
 /-! ### OPEN (stated, not proved; carried by the executable model + correspondence + monitors)
 
--- OPEN C17_result_matches_doc, remaining milestones (closed: `C17_result_matches_doc_serial`,
---   `C17_finishes_exactly_once`):
---   * M4 Loop / LoopIf / Repeat: `gen` assumes `resets = []`.  Missing: (i) `KSpec`/`gen` with reset lists,
---     using `reset_wf` (a reset child is `Clean`); (ii) shape preservation — `eval`/`visit`/`Good` depend on
---     the static skeleton only, so `Good` must be stated for every `Clean` tree with the skeleton of the
---     original child; (iii) for non-terminating loops the statement per finite prefix.
+-- OPEN C17_result_matches_doc, remaining milestones (closed: `C17_result_matches_doc_serial` incl. Loop /
+--   LoopIf / Repeat, `C17_finishes_exactly_once`, `C17_loop_never_finishes`, `C17_skeleton_preserved`):
+--   * per-prefix ORDER statement for a non-terminating loop (proved: only leaf calls, no finish; not proved:
+--     the calls are a prefix of the infinitely repeated visit order).  Missing: a partial-trace predicate
+--     `Part t pfx` beside `visit` (prefix-closed, defined by recursion on the tree like `visit`, unrolling a
+--     loop k times) and the corresponding clause in `RunOk` / `KSpec.kstep` / `KSpecR.kstep`.
+--   * Repeat(0) ("for ever" by wrap-around to 2^64-1) is outside `kindOk`; see `C17_repeat_zero_means_forever`.
 --   * M1/M3 ParallelAction: several children are active at once, so `AP` (at most one queued task) fails.
 --     Missing: the locality lemma for `runTask` under "all queued run ids are distinct and below `nextId`"
 --     (a new invariant of `step`), and the interleaving statement (children advance in lockstep per pass).
---   * timeouts (`tmo ≠ none`) and DummyAction leaves are outside the evaluator's domain.
+--   * timeouts (`tmo ≠ none`) and DummyAction leaves are outside the evaluator's domain (the evaluator has
+--     no notion of time; needed: `evalT` returning the finishing time along with the result).
 --   The driver still compares every generated control-free run (all composites, all modes) with `eval`.
 -- OPEN C17_reset_bisim: after `reset` every later op sequence produces the same observable trace as on
 --   the freshly built tree (equal up to run ids and the dead fields).  Proved: `Clean` + `WF` of the
 --   reset tree (`C17_reset_fresh`); the driver's differential runs contain reset-then-rerun histories.
--- OPEN ActionExecutor: "the Running action is the head of the HIGHEST-priority non-empty deque" and "the
---   started / finished callbacks fire at most once per action id" are evaluated by the driver on every
---   generated executor history (monitors) but not proved (missing: the invariant `running head at i ⇒
---   deques below i are empty`, and the log invariant `started id ∈ log ⇒ the action with that id is not
---   Idle`, `finished id ∈ log ⇒ no action with that id`, ids distinct and ≤ the counter).  cancelAll()
+-- OPEN ActionExecutor: "the started / finished callbacks fire at most once per action id" is evaluated by
+--   the driver on every generated executor history (monitor) but not proved (missing: the log invariant
+--   `started id ∈ log ⇒ the action with that id is not Idle`, `finished id ∈ log ⇒ no action with that id`,
+--   ids distinct and ≤ the counter — `xinv` in Exec.lean states it, its preservation by `sched` is open).  cancelAll()
 --   only stops the heads and neither removes anything nor calls schedule(): reported, modelled as is.
 -/
 
